@@ -178,15 +178,41 @@ func chains(r *rand.Rand) one {
 		k = 20 + r.Intn(40) // long lists of one repeated name: the loops read every occurrence
 	}
 	or := strings.Repeat(`"@x", `, k) + pick(`"@a"`, `"@a"`, `"@i"`, `"@s"`, `"@zz"`)
-	c.names = []string{"@s", "@i", "@x", "@T", "@a", "@al", "@o", "@w"}
+	c.names = []string{"@s", "@i", "@x", "@T", "@a", "@al", "@o", "@w", "@ks", "@kc"}
 	c.texts = []string{`"abc" // {minLength: 1}`, "7 // {min: 3}", "3",
 		"1 // {or: [" + or + "]}",
 		"2 // {type: " + pick(`"@T"`, `"@T"`, `"@i"`, `"@al"`, `"@a"`) + "}",
 		pick("@i", "@s | @i", "@a", "@al", "@T", "@zz"),
 		pick("@s | @i", "@s | @zz", "@T | @s", "@al | @i"),
-		"{\n  \"p\": " + pick("@s | @i", "@s | @zz", "@o", "@al") + ",\n  \"q\": [\n    " + pick("@i | @x", "@zz | @x", "4 // {type: \"@a\"}") + "\n  ]\n}"}
+		"{\n  \"p\": " + pick("@s | @i", "@s | @zz", "@o", "@al") + ",\n  \"q\": [\n    " + pick("@i | @x", "@zz | @x", "4 // {type: \"@a\"}") + "\n  ]\n}",
+		// key types that are aliases / or-shortcuts (C04_models_agree_compiled_keys): actualRootType follows them
+		pick("@s", "@s", "@s", "@s", "@kc", "@kc", "@kc", "@al", "@s | @kc", "@s | @i", "@kc | @s", "@zz", "@ks"),
+		pick("@s", "@s", "@s", "@s", "@ks", "@ks | @s", "@s | @s", "@kc", "@i", `"k" // {type: "@s"}`)}
 	ex := pick("5", "1", `"q"`, "2.5", "true")
-	switch r.Intn(5) {
+	switch r.Intn(8) {
+	case 5, 6, 7: // an object whose key shortcuts name aliases, or-shortcuts, cycles of them
+		var lines []string
+		keys := []string{"@ks", "@kc", "@s", "@al", "@o", "@i", "@T", "@a", "@w", "@zz"}
+		r.Shuffle(len(keys), func(i, j int) { keys[i], keys[j] = keys[j], keys[i] })
+		if r.Intn(3) != 0 { // mostly the alias key types first
+			keys = append([]string{"@ks", "@kc", "@s"}[:1+r.Intn(3)], keys[:1]...)
+		}
+		n := 1 + r.Intn(3)
+		seen := map[string]bool{}
+		for i := 0; i < n && i < len(keys); i++ {
+			if seen[keys[i]] {
+				continue
+			}
+			seen[keys[i]] = true
+			lines = append(lines, "  "+keys[i]+": "+pick(ex, "@i", "@ks"))
+		}
+		for i := range lines {
+			if i < len(lines)-1 {
+				lines[i] += ","
+			}
+		}
+		c.root = "{\n" + strings.Join(lines, "\n") + "\n}"
+		c.stats = []string{"chains_alias_keys"}
 	case 0:
 		c.root = ex + " // {type: " + pick(`"@T"`, `"@a"`, `"@al"`, `"@o"`, `"@i"`, `"@w"`) + "}"
 	case 1:
@@ -270,7 +296,7 @@ func verdictWord(p string) (string, string) {
 }
 
 func Run(args []string) {
-	rep := vh.NewReport(command, "Lean-vs-Lean: the schema texts of the generators of e2e-text (random type tables: root + 4 named types + 4 key types, half of them with noise rules; 1 in 6 also byte-mutated), c08-model (one annotated node in a context: random / duplicate / or-member / malformed-value / shortcut streams), c04-model (streams 1, 2 with chains of corruptions; wild) and a targeted stream (objects with several key shortcuts, every additionalProperties type name, rule values at the edge of the constructors, reference nodes with rules; chains: typed literals, or lists with repeated names, aliases and or-shortcuts through named types, cycles included) go to the driver word `bridge`: scanner model -> loader model -> (A) Compile, (B) CR.checkRules per node through crNodeOf, (C) CK.checkSchema through dumpOf; DISAGREE in any of the three comparisons (B: per node code; W: per-node reading of (A) against (A); C: checker code) is a diff, and so is an (A) that answers out-of-fuel; the real Check() of the same texts is shown next to it; nontrivial = some annotated node compared or the checker stage reached")
+	rep := vh.NewReport(command, "Lean-vs-Lean: the schema texts of the generators of e2e-text (random type tables: root + 4 named types + 4 key types, half of them with noise rules; 1 in 6 also byte-mutated), c08-model (one annotated node in a context: random / duplicate / or-member / malformed-value / shortcut streams), c04-model (streams 1, 2 with chains of corruptions; wild) and a targeted stream (objects with several key shortcuts, every additionalProperties type name, rule values at the edge of the constructors, reference nodes with rules; chains: typed literals, or lists with repeated names, aliases and or-shortcuts through named types, cycles included, key shortcuts whose type is an alias / or-shortcut) go to the driver word `bridge`: scanner model -> loader model -> (A) Compile, (B) CR.checkRules per node through crNodeOf, (C) CK.checkSchema through dumpOf; DISAGREE in any of the three comparisons (B: per node code; W: per-node reading of (A) against (A); C: checker code) is a diff, and so is an (A) that answers out-of-fuel; the real Check() of the same texts is shown next to it; nontrivial = some annotated node compared or the checker stage reached")
 	n := vh.Pick(24000, 400000)
 	const batch = 4000
 	total, outside := 0, 0
@@ -323,13 +349,19 @@ func Run(args []string) {
 				continue
 			}
 			rep.Case(reqs[i], bw == "AGREE" || cw == "AGREE")
+			for _, s := range x.c.stats {
+				if s == "chains_alias_keys" { // the class of C04_models_agree_compiled_keys: verdicts of (C) against (A), and (A)'s code
+					rep.Stat("chains_alias_keys_C_" + cw)
+					rep.Stat("chains_alias_keys_A_" + strings.Join(strings.Fields(a + " - -")[:2], "_"))
+				}
+			}
 			if strings.HasPrefix(a, "UNSUP fuel") {
 				// C04_text_checker_never_out_of_fuel: Compile.checkFuel is enough on every tree and every type table
 				rep.Stat("diff_A_fuel")
 				rep.AddDiff(vh.Diff{Component: command + ":A-fuel", Input: input(x.c), Impl: "real Check() = " + x.real,
 					Model: reply, Note: reqs[i], Level: "correspondence"})
 			}
-			rep.Stat("A_" + strings.Join(strings.Fields(a+" -")[:1], ""))
+			rep.Stat("A_" + strings.Join(strings.Fields(a + " -")[:1], ""))
 			rep.Stat("B_" + bw)
 			rep.Stat("W_" + ww)
 			rep.Stat("C_" + cw)
@@ -337,7 +369,7 @@ func Run(args []string) {
 				rep.Stat("B_OUTSIDE_" + bd)
 			}
 			if cw == "OUTSIDE" {
-				rep.Stat("C_OUTSIDE_" + strings.Join(strings.Fields(cd+" -")[:1], ""))
+				rep.Stat("C_OUTSIDE_" + strings.Join(strings.Fields(cd + " -")[:1], ""))
 			}
 			if ww == "OUTSIDE" {
 				rep.Stat("W_OUTSIDE_" + wd)
